@@ -355,4 +355,23 @@ Proof. eexists; eexists. split; [vm_compute; reflexivity | vm_compute; reflexivi
             ("C19_verbatim_pointer_dangles", "Ownership.v", "verbatim_pointer_dangles"),
             ("C19_all_classes_indep", "Ownership.v", "all_classes_indep"),
             ("C19_layout_nonvacuous", "Ownership.v", "layout_nonvacuous")]),
+ "C06": dict(
+   header="""   C06 — DynamicPGMIndex: traversal, range, size and empty agree with an ordered map.
+   Proved on the statement-by-statement model for ALL guarded histories and configurations (same side
+   conditions as C05), with the CONCRETE loser tree (tree_iface_holds), not an abstract selection function:
+   * C06_range: range(lo,hi) returns exactly the live pairs with lo <= key <= hi, in order;
+   * C06_iter: iterating with ++ from any lower_bound result visits exactly the live keys >= q in strictly
+     increasing order, each once, with current values, and reaches end() (never out of fuel);
+   * C06_begin / C06_size / C06_empty: begin()..end() is the whole map, size() its cardinality, empty() iff none.
+   Keys below max K (the tree's sentinel), kmin <= every key for begin().
+   Note: LoserTree(0) (first ++ on the greatest key) evaluates 1 << 64 in C++ (undefined; x86 masks the count);
+   the model states that masking explicitly (DynModel.lt_new).""",
+   imports=["Base", "GenLeaf", "DynModel", "DynSpec", "DynCoreLemmas", "DynCoreInv", "DynCoreRefine", "DynCoreQuery", "DynCoreTotal", "DynCoreLB", "DynCore",
+            "DynIterRange", "DynIterTree", "DynIter"],
+   entries=[("C06_range", "@check", "C06_range"),
+            ("C06_iter", "@check", "C06_iter"),
+            ("C06_begin", "@check", "C06_begin"),
+            ("C06_size", "@check", "C06_size"),
+            ("C06_empty", "@check", "C06_empty"),
+            ("C06_tree_iface_holds", "@check", "tree_iface_holds")]),
 }
